@@ -255,7 +255,10 @@ def harness(g, chart, level, canary=False):
             if ev:
                 from sismic.model import Event as _Ev
                 its[w].queue(_Ev(ev, jobs=[1, 2, 3]))      # every interpreter gets its own parameter object
-        r = {w: run(w, lambda it: it.execute_once()) for w in whos}
+        order_ = whos if k % 2 == 0 else [w for w in ('rest', 'plain', 'orig') if w in whos]
+        r = {}
+        for w in order_:
+            r[w] = run(w, lambda it: it.execute_once())
         stop = compare('plain', 'orig', r['plain'], r['orig'], 'undisturbed')
         if 'rest' in its:
             stop = compare('orig', 'rest', r['orig'], r['rest'], 'restored') or stop
